@@ -39,8 +39,21 @@ def stepUdp (addr pkt sample mask pn hl opn perm sni : String) : String :=
       | _, _ => "panic"
   | _, _, _, _, _, _, _, _ => "bad-op"
 
+/-- `two k <7 fields per stream>…`: k streams through one Sniffer, one after the other -/
+def stepTwo : Nat → List String → Option (List String)
+  | 0, [] => some []
+  | k + 1, addr :: cs :: dl :: fin :: reads :: hh :: sni :: rest =>
+    (stepTwo k rest).map (fun l => stepTcp addr cs dl fin reads hh sni :: l)
+  | _, _ => none
+
 def step (line : String) : String :=
   match fields line with
+  | "two" :: k :: rest =>
+    match k.toNat? with
+    | some k => match stepTwo k rest with
+      | some outs => " ; ".intercalate outs
+      | none => "bad-op"
+    | none => "bad-op"
   | ["tcp", addr, cs, dl, fin, reads, hh, sni] => stepTcp addr cs dl fin reads hh sni
   | ["udp", addr, pkt, sample, mask, pn, hl, opn, perm, sni] => stepUdp addr pkt sample mask pn hl opn perm sni
   | _ => "bad-op"
